@@ -119,8 +119,9 @@ def judge_exec(sim, rec, res, case):
         if not handed:
             # left behind by the executor (C07 reports the hand-over side):
             # the placed task never gives its resources back either
-            if 'watchdog' in sim.notes and sim.alive(r['pid']):
-                res.inconc('watchdog fired while %s still runs' % uid)
+            if 'watchdog' in sim.notes:
+                res.inconc('watchdog fired before the history went idle '
+                           '(%s not handed over yet)' % uid)
             elif r['unschedules'] == 0:
                 res.violation('placed-task-never-unscheduled',
                               '%s (%s): %s' % (uid, ending, r['order']),
